@@ -24,7 +24,22 @@ ASSUMPTIONS = [
 @st.composite
 def fit_specs(draw, tier):
     max_atoms = 48 if tier == "quick" else 96
-    base = draw(crystal_with_supercell(max_atoms=max_atoms, max_unit=12, max_det=8))
+    if draw(st.sampled_from([0, 0, 1])):
+        # trigonal / hexagonal crystals in skewed supercells m x (unimodular matrix): site-symmetry rotations written in such a basis
+        # are far from orthogonal integer matrices - the hardest input of the displacement-direction search
+        cs = {"kind": "hall", "key": draw(keys), "hall": draw(st.integers(430, 488)), "norbits": draw(st.integers(1, 2)), "max_unit": 6,
+              "perm": draw(st.booleans()), "rot": draw(st.booleans()), "masses": draw(st.booleans())}
+        U = np.eye(3, dtype=int)
+        for _ in range(draw(st.integers(1, 4))):
+            i, j = draw(st.sampled_from([(0, 1), (0, 2), (1, 0), (1, 2), (2, 0), (2, 1)]))
+            E = np.eye(3, dtype=int)
+            E[i, j] = draw(st.sampled_from([-1, 1]))
+            U = U @ E
+        c0 = build_crystal(cs)
+        m = 2 if (c0 is not None and len(c0["cell"]) * 8 <= max_atoms and draw(st.booleans())) else 1
+        base = {"crystal": cs, "smat": (m * U).tolist()}
+    else:
+        base = draw(crystal_with_supercell(max_atoms=max_atoms, max_unit=12, max_det=8))
     base.update(
         key=draw(keys),
         pmat=draw(st.sampled_from(["none", "auto", "P", "centring", "explicit"])),
